@@ -19,6 +19,11 @@ Two units, composed assume/guarantee-wise on the EndpointInterface of the contro
         configuration' = likewise
         the token detector filters on, and the endpoints see, exactly these registers (old address until the commit).
      Endpoints other than the control endpoint never drive the strobes (their ACKs cannot trigger a change).
+
+ (wiring) USBControlEndpoint/wiring_commit_acm: on the real control endpoint with three real handlers (standard + ACM + stall)
+     the endpoint's address_changed / new_address / config_changed / new_config / clear_endpoint_halt_out are the claiming
+     handler's lines (each its own, through the real multiplexer), and every handler sees the device's active_config and
+     handshakes_in (c10_unsupported_requests_stall.control_endpoint_obligations).
 """
 import z3
 from hwv.contract import B, bvc, bits, bv1, zx
@@ -153,4 +158,12 @@ def device(c):
 
 def contracts(tier):
     yield ("USBControlEndpoint", "standard_ep0", strobes)
+    from .c10_unsupported_requests_stall import make_control_endpoint_wiring
+    yield ("USBControlEndpoint", "wiring_commit_acm", make_control_endpoint_wiring("acm", {"commit", "handlers"}, ep=0))
     yield ("USBDevice", "utmi_control_plus_bulk_in", device)
+    # caller side: commit strobes / values through the real multiplexer, registers back to every endpoint and the token detector
+    from .w1_usb2_glue import device_wiring as glue, mux_wiring
+    yield ("USBEndpointMultiplexer", "wiring_3_interfaces", mux_wiring(3, ("commit", "state")))
+    yield ("USBDevice", "wiring_utmi", glue("utmi", ("commit", "state", "tokenizer")))
+    if tier != "quick":
+        yield ("USBDevice", "wiring_ulpi", glue("ulpi", ("commit", "state", "tokenizer")))
